@@ -201,7 +201,11 @@ func ReaderRoot(r io.Reader) (types.Hash256, error) {
 		if err == io.EOF {
 			break
 		} else if err == io.ErrUnexpectedEOF {
-			if n%LeafSize != 0 {
+			if n == 0 {
+				// io.ReadFull reports an empty final batch as io.EOF, so this
+				// comes from the reader itself: the stream was cut short
+				return types.Hash256{}, err
+			} else if n%LeafSize != 0 {
 				return types.Hash256{}, errors.New("stream does not contain integer multiple of leaves")
 			}
 		} else if err != nil {
